@@ -238,4 +238,3 @@ package aa
 //@ func (Rules).Sort$1
 //@   opt prop=C11
 //@   sortlaws
-
